@@ -12,6 +12,7 @@ import (
 	"io"
 	"net"
 	"os"
+	"sort"
 	"strings"
 	"sync"
 	"sync/atomic"
@@ -55,6 +56,7 @@ type registry struct {
 	nextPort int
 	conns    []*conn
 	dials    int
+	files    []fileRec // socket marker files created since the last Reset
 }
 
 var reg = &registry{ls: map[string]*listener{}, nextPort: 20000}
@@ -76,15 +78,59 @@ func Reset() {
 	reg.mu.Lock()
 	ls := reg.ls
 	cs := reg.conns
+	fs := reg.files
 	reg.ls = map[string]*listener{}
 	reg.conns = nil
+	reg.files = nil
 	reg.mu.Unlock()
+	for _, f := range fs {
+		os.Remove(f.path) // what a crashed domain left behind
+	}
 	for _, l := range ls {
 		l.close(true)
 	}
 	for _, c := range cs {
 		c.Close()
 	}
+}
+
+type fileRec struct {
+	path string
+	dom  *vs.Domain
+}
+
+// LeftFiles returns the socket files created by domains of execution exec that still exist
+// (a listener that was closed properly has unlinked its file; a domain that crashed has not).
+// Stragglers of earlier executions have no domain in this one and are not counted.
+func LeftFiles(exec int64) []string {
+	reg.mu.Lock()
+	fs := append([]fileRec(nil), reg.files...)
+	reg.mu.Unlock()
+	var out []string
+	for _, f := range fs {
+		if f.dom == nil || f.dom.ExecID() != exec {
+			continue
+		}
+		if _, err := os.Lstat(f.path); err == nil {
+			out = append(out, f.dom.Name+" "+f.path)
+		}
+	}
+	return out
+}
+
+// Open returns "domain network|address" of every listener of execution exec still registered.
+func Open(exec int64) []string {
+	reg.mu.Lock()
+	defer reg.mu.Unlock()
+	var out []string
+	for k, l := range reg.ls {
+		if l.dom == nil || l.dom.ExecID() != exec {
+			continue
+		}
+		out = append(out, l.dom.Name+" "+k)
+	}
+	sort.Strings(out)
+	return out
 }
 
 // Stats returns the number of open listeners and the dial count.
@@ -163,6 +209,9 @@ func Listen(network, address string) (net.Listener, error) {
 		// leak checks see what they would see with a real socket
 		if f, err := os.OpenFile(l.file, os.O_CREATE|os.O_EXCL|os.O_WRONLY, 0o600); err == nil {
 			f.Close()
+			reg.mu.Lock()
+			reg.files = append(reg.files, fileRec{l.file, l.dom})
+			reg.mu.Unlock()
 		} else {
 			reg.mu.Lock()
 			delete(reg.ls, network+"|"+l.address)
